@@ -57,6 +57,17 @@ func ddlVariant(st sq.State, variant string) ([]string, bool) {
 		// the default "one" written in another way
 		return sq.DDLWith(st, strings.TrimPrefix(variant, "dflt:")), false
 	}
+	if variant == "lowerwhere" {
+		// keywords as a person might type them: the engine keeps the text verbatim
+		var out []string
+		for _, s := range sq.DDL(st) {
+			if strings.HasPrefix(s, "CREATE") && strings.Contains(s, " INDEX ") && strings.Contains(s, " WHERE ") {
+				s = strings.Replace(s, " WHERE ", " where ", 1)
+			}
+			out = append(out, s)
+		}
+		return out, false
+	}
 	if variant == "multiline" {
 		// the engine keeps the statement text verbatim: line breaks inside the predicate of a partial index and inside a CREATE TABLE
 		var out []string
@@ -431,6 +442,9 @@ func exportMode(pairsFile, out string, workers int) {
 			}
 			if partial && len(jobs)%3 == 0 {
 				jobs = append(jobs, job{st, "multiline"})
+			}
+			if partial && len(jobs)%3 == 1 {
+				jobs = append(jobs, job{st, "lowerwhere"})
 			}
 		}
 	}
